@@ -28,7 +28,7 @@ func (c12) Meta(tier string) engine.Meta {
 	}
 	return engine.Meta{
 		Level: "model_checking",
-		Rule: fmt.Sprintf("(a) ALL token sequences of <= %d tokens over a 26-token alphabet through Eval, Compile + call (closure back end) and Debug; (b) every single token insertion / deletion / duplication / replacement of a 24-program corpus (thorough: also double edits); (c) nesting families ( [ {a: [1: key-position maps f( - ! a?b: a?: .m [0] if( list-in-first-position, each to depth 64 (thorough 200); (d) host values of every Go shape of depth <= 2 incl. nil, typed nil, pointer to nil pointer, nil interface inside containers, cyclic pointers, recursive types, unsupported kinds (chan, func, complex, uintptr), as environment of Eval / Compile / Callable / Debug. Oracle: the API returns (value, error): a panic that escapes, or a dead worker, is a violation; the counted work (lexer tokens, parser expr calls, checker nodes, unify calls, conversion calls: build-tag Step hooks) must stay <= 200·(n+2)²+2000 for an input of n runes — enforced as a deterministic budget abort, never a wall-clock limit. non-trivial = inputs that reach the parser (not rejected by the lexer)", n),
+		Rule: fmt.Sprintf("(a) ALL token sequences of <= %d tokens over a 26-token alphabet through Eval, Compile + call (closure back end) and Debug; (b) every single token insertion / deletion / duplication / replacement of a 24-program corpus (thorough: also double edits); the corpus re-joined with 12 kinds of white space (tab, CR, LF, CRLF, VT, FF, NBSP, U+2028, U+3000 …); (c) nesting families ( [ {a: [1: key-position maps f( - ! a?b: a?: .m [0] if( list-in-first-position, each to depth 64 (thorough 200); (d) host values of every Go shape of depth <= 2 incl. nil, typed nil, pointer to nil pointer, nil interface inside containers, cyclic pointers, recursive types, unsupported kinds (chan, func, complex, uintptr), as environment of Eval / Compile / Callable / Debug. Oracle: the API returns (value, error): a panic that escapes, or a dead worker, is a violation; the counted work (lexer tokens, parser expr calls, checker nodes, unify calls, conversion calls: build-tag Step hooks) must stay <= 200·(n+2)²+2000 for an input of n runes — enforced as a deterministic budget abort, never a wall-clock limit. non-trivial = inputs that reach the parser (not rejected by the lexer)", n),
 		Bound: fmt.Sprintf("%d tokens; nest depth 64 / 200; host shapes depth 2", n),
 		Assumptions: []string{"'polynomial' is checked as quadratic in counted steps with a 200× constant; evaluation work is bounded through C11 (forward-only bytecode) and is not step-counted"},
 	}
@@ -98,6 +98,10 @@ func (c12) Generate(tier string, yield func(*engine.Case) bool) {
 	// (b) edits of the corpus
 	for pi, src := range c12Corpus {
 		emit("edits", fmt.Sprintf("p%d", pi), src, "edits", fmt.Sprint(pi))
+	}
+	// (b2) the corpus with every kind of white space between its tokens
+	for pi := range c12Corpus {
+		emit("separators", fmt.Sprintf("p%d", pi), c12Corpus[pi], "seps", fmt.Sprint(pi))
 	}
 	// (c) nests
 	maxD := 64
@@ -311,6 +315,14 @@ func (c12) Run(c *engine.Case) *engine.Result {
 			rounds = 2
 		}
 		edits(toks, rounds)
+		res.NonTrivial = true
+	case "seps":
+		env := c12Env()
+		toks := lexForEdit(c.Src)
+		for _, sep := range []string{" ", "\t", "\r", "\n", "\r\n", "\v", "\f", "\u00a0", "\u2028", "\u3000", "  ", " \r "} {
+			one(strings.Join(toks, sep), env)
+			one(sep+strings.Join(toks, sep)+sep, env)
+		}
 		res.NonTrivial = true
 	case "src":
 		one(c.Src, c12Env())
